@@ -1215,8 +1215,8 @@ theorem C01_gadget_range_quad (lin : Lin) (q : Quad) (lb ub : Option Rat) (n : N
 
 /-! ## conditional equality `res ⇔ body = rhs` (cond_eq.h) -/
 
-/-- enforced when `res = 0`: the body is at least eps away from rhs -/
-def neqPred (e b rhs : Rat) : Prop := b ≤ rhs - e ∨ rhs + e ≤ b
+/-- enforced when `res = 0`: the body is outside the open interval `(lo, hi)` around rhs -/
+def neqPred (lo hi b : Rat) : Prop := b ≤ lo ∨ hi ≤ b
 
 theorem condEqPos_core (res : Var) (body : Lin) (rhs : Rat) (B : Bnds) (y : Asg)
     (hne : body.isEmpty = false) (hr : y res = 0 ∨ y res = 1) (hd : inDom B y res) :
@@ -1249,7 +1249,7 @@ theorem condEqNeg_sound (res : Var) (body : Lin) (rhs : Rat) (B : Bnds) (o : Opt
     (hne : body.isEmpty = false) (hr : y res = 0 ∨ y res = 1) (hd : inDom B y res)
     (haux : auxOk n y (condEqNeg res body rhs B o n).vars)
     (hc : ∀ c ∈ (condEqNeg res body rhs B o n).cons, c.sat y) :
-    y res = 0 → neqPred (cmpEpsOf o (linBnd B body).2.2) (evalLin y body) rhs := by
+    y res = 0 → neqPred (condEqLo o (linBnd B body).2.2 rhs) (condEqHi o (linBnd B body).2.2 rhs) (evalLin y body) := by
   intro h0
   simp only [condEqNeg, hne, Bool.false_eq_true, if_false] at haux hc
   by_cases hcond : (!(B res).isFixed || (B res).fixedVal == 0) = true
@@ -1272,12 +1272,13 @@ theorem condEqNeg_sound (res : Var) (body : Lin) (rhs : Rat) (B : Bnds) (o : Opt
 theorem condEqNeg_complete (res : Var) (body : Lin) (rhs : Rat) (B : Bnds) (o : Opts) (n : Nat) (x : Asg)
     (hne : body.isEmpty = false) (hrn : res < n) (hb : ∀ p ∈ body, p.2 < n)
     (hr : x res = 0 ∨ x res = 1)
-    (h : x res = 0 → neqPred (cmpEpsOf o (linBnd B body).2.2) (evalLin x body) rhs) :
+    (h : x res = 0 → neqPred (condEqLo o (linBnd B body).2.2 rhs) (condEqHi o (linBnd B body).2.2 rhs) (evalLin x body)) :
     ∃ x' : Asg, agree n x x' ∧ auxOk n x' (condEqNeg res body rhs B o n).vars ∧
       ∀ c ∈ (condEqNeg res body rhs B o n).cons, c.sat x' := by
-  let eps := cmpEpsOf o (linBnd B body).2.2
-  let f1 : Rat := if x res = 0 ∧ evalLin x body ≤ rhs - eps then 1 else 0
-  let f2 : Rat := if x res = 0 ∧ ¬ evalLin x body ≤ rhs - eps then 1 else 0
+  let lo := condEqLo o (linBnd B body).2.2 rhs
+  let hi := condEqHi o (linBnd B body).2.2 rhs
+  let f1 : Rat := if x res = 0 ∧ evalLin x body ≤ lo then 1 else 0
+  let f2 : Rat := if x res = 0 ∧ ¬ evalLin x body ≤ lo then 1 else 0
   refine ⟨fun v => if v = n then f1 else if v = n + 1 then f2 else x v, ?_, ?_, ?_⟩
   · intro v hv
     have h1 : v ≠ n := Nat.ne_of_lt hv
@@ -1308,21 +1309,21 @@ theorem condEqNeg_complete (res : Var) (body : Lin) (rhs : Rat) (B : Bnds) (o : 
       rcases hr with h0 | h0
       · have hp := h h0
         unfold neqPred at hp
-        by_cases hle : evalLin x body ≤ rhs - eps
+        by_cases hle : evalLin x body ≤ lo
         · simp [f1, f2, h0, hle]; grind
-        · have : rhs + eps ≤ evalLin x body := by rcases hp with hp | hp <;> grind
+        · have : hi ≤ evalLin x body := by rcases hp with hp | hp <;> grind
           simp [f1, f2, h0, hle]; grind
       · have hn0 : ¬ x res = 0 := by rw [h0]; grind
         simp [f1, f2, hn0, h0]; grind
     · intro c hc; exact absurd hc (by simp)
 
 /-- what `CondEQConverter_MIP` emits (cases converted by `Base::Convert`): `res = 1 ⇒ body = rhs` for a positive
-part of the context, `res = 0 ⇒ body ≤ rhs - eps ∨ body ≥ rhs + eps` (two fresh binaries) for a negative part -/
+part of the context, `res = 0 ⇒ body ≤ lo ∨ body ≥ hi` (two fresh binaries; `lo/hi = condEqLo/condEqHi`) for a negative part -/
 theorem C01_gadget_condeq_emits (res : Var) (body : Lin) (rhs : Rat) (ctx : Ctx) (B : Bnds) (o : Opts) (n : Nat)
     (hne : body.isEmpty = false) (hrn : res < n) (hb : ∀ p ∈ body, p.2 < n) :
     Exact (gCondEq res body rhs ctx B o n) n (condDom B res)
       (fun x => (ctx.eff.hasPos = true → x res = 1 → evalLin x body = rhs) ∧
-                (ctx.eff.hasNeg = true → x res = 0 → neqPred (cmpEpsOf o (linBnd B body).2.2) (evalLin x body) rhs)) := by
+                (ctx.eff.hasNeg = true → x res = 0 → neqPred (condEqLo o (linBnd B body).2.2 rhs) (condEqHi o (linBnd B body).2.2 rhs) (evalLin x body))) := by
   have rN := condEqNeg_refusal res body rhs B o n
   have pP := condEqPos_noaux res body rhs B
   constructor
@@ -1364,8 +1365,31 @@ theorem C01_gadget_condeq_emits (res : Var) (body : Lin) (rhs : Rat) (ctx : Ctx)
         (condEqPos_core res body rhs B x hne hr hd).mpr (h1 e1)⟩
     · exact ⟨x, fun _ _ => rfl, by simp [auxOk], by intro c hc; exact absurd hc (by simp)⟩
 
-theorem C01_gadget_condeq_sound (ctx : Ctx) (e b rhs r : Rat) (he : 0 < e) (hr : r = 0 ∨ r = 1)
-    (h : (ctx.eff.hasPos = true → r = 1 → b = rhs) ∧ (ctx.eff.hasNeg = true → r = 0 → neqPred e b rhs)) :
+theorem condEqLo_lt (o : Opts) (isI : Bool) (rhs : Rat) (h : isI = true ∨ 0 < o.cmpEps) : condEqLo o isI rhs < rhs := by
+  unfold condEqLo
+  cases isI
+  · have he : 0 < o.cmpEps := by rcases h with h | h; exact absurd h (by decide); exact h
+    simp [cmpEpsOf]; grind
+  · simp only [if_true]
+    have h1 : ¬ (rhs.ceil ≤ rhs.ceil - 1) := by omega
+    rw [Rat.ceil_le_iff] at h1
+    have : ((rhs.ceil - 1 : Int) : Rat) = (rhs.ceil : Rat) - 1 := by push_cast; rfl
+    rw [this] at h1; grind
+
+theorem condEqHi_gt (o : Opts) (isI : Bool) (rhs : Rat) (h : isI = true ∨ 0 < o.cmpEps) : rhs < condEqHi o isI rhs := by
+  unfold condEqHi
+  cases isI
+  · have he : 0 < o.cmpEps := by rcases h with h | h; exact absurd h (by decide); exact h
+    simp [cmpEpsOf]; grind
+  · simp only [if_true]
+    have := Rat.lt_floor_add_one rhs
+    have e : ((rhs.floor + 1 : Int) : Rat) = (rhs.floor : Rat) + 1 := by push_cast; rfl
+    rw [e] at this; exact this
+
+/-- soundness: whenever the separation bounds straddle rhs (integer body, or eps > 0) what is emitted implies the
+context's reading of `res ⇔ body = rhs` -/
+theorem C01_gadget_condeq_sound (ctx : Ctx) (lo hi b rhs r : Rat) (hlo : lo < rhs) (hhi : rhs < hi) (hr : r = 0 ∨ r = 1)
+    (h : (ctx.eff.hasPos = true → r = 1 → b = rhs) ∧ (ctx.eff.hasNeg = true → r = 0 → neqPred lo hi b)) :
     rel ctx r (b2r (Cmp5.eq.holds b rhs)) := by
   rw [rel_b2r_iff ctx r _ hr]
   obtain ⟨h1, h2⟩ := h
@@ -1374,40 +1398,57 @@ theorem C01_gadget_condeq_sound (ctx : Ctx) (e b rhs r : Rat) (he : 0 < e) (hr :
   unfold neqPred at this
   simp only [Cmp5.holds]; grind
 
-/-- exact for integer bodies when the right-hand side is an integer (eps = 1).
-FULL STATEMENT (any right-hand side) fails: `C01_counterexample_condeq_nonint_rhs`. -/
-theorem C01_gadget_condeq_exact_int_partial (ctx : Ctx) (b rhs r : Rat)
-    (hb : isIntVal b) (hrhs : isIntVal rhs) (hr : r = 0 ∨ r = 1) :
-    ((ctx.eff.hasPos = true → r = 1 → b = rhs) ∧ (ctx.eff.hasNeg = true → r = 0 → neqPred 1 b rhs))
+/-- exact for integer bodies, for EVERY right-hand side (full strength after /repo c58c7b7).
+History: before the fix the bounds were `rhs ∓ 1`; the claim then needed an integer `rhs`
+(`C01_gadget_condeq_exact_int_partial`) and failed otherwise (`C01_counterexample_condeq_nonint_rhs`: body value 1,
+rhs 3/2, res 0 excluded by `body ≤ 1/2 ∨ body ≥ 5/2`); the check re-found it on the real code
+(`b==1 or not (2*x == 3)` over integer x) until the fix. -/
+theorem C01_gadget_condeq_exact_int (ctx : Ctx) (o : Opts) (b rhs r : Rat) (hb : isIntVal b) (hr : r = 0 ∨ r = 1) :
+    ((ctx.eff.hasPos = true → r = 1 → b = rhs) ∧
+      (ctx.eff.hasNeg = true → r = 0 → neqPred (condEqLo o true rhs) (condEqHi o true rhs) b))
       ↔ rel ctx r (b2r (Cmp5.eq.holds b rhs)) := by
   constructor
-  · exact C01_gadget_condeq_sound ctx 1 b rhs r (by grind) hr
+  · exact C01_gadget_condeq_sound ctx _ _ b rhs r (condEqLo_lt o true rhs (Or.inl rfl)) (condEqHi_gt o true rhs (Or.inl rfl)) hr
   · rw [rel_b2r_iff ctx r _ hr]
     intro ⟨h1, h2⟩
     refine ⟨fun hp h0 => h1 hp h0, fun hn h0 => ?_⟩
     have hne := h2 hn h0
     simp only [Cmp5.holds] at hne
-    have lt1 : b < rhs → b + 1 ≤ rhs := int_lt_add_one hb hrhs
-    have lt2 : rhs < b → rhs + 1 ≤ b := int_lt_add_one hrhs hb
-    unfold neqPred
-    by_cases hlt : b < rhs
-    · left; have := lt1 hlt; grind
-    · right; have : rhs < b := by grind
-      have := lt2 this; grind
+    obtain ⟨k, rfl⟩ := hb
+    unfold neqPred condEqLo condEqHi
+    simp only [if_true]
+    by_cases hlt : (k : Rat) < rhs
+    · left
+      have h1 : ¬ (rhs.ceil ≤ k) := by rw [Rat.ceil_le_iff]; grind
+      have h2 : k ≤ rhs.ceil - 1 := by omega
+      have : ((k : Int) : Rat) ≤ ((rhs.ceil - 1 : Int) : Rat) := by exact_mod_cast h2
+      have e : ((rhs.ceil - 1 : Int) : Rat) = (rhs.ceil : Rat) - 1 := by push_cast; rfl
+      rw [e] at this; exact this
+    · right
+      have hgt : rhs < (k : Rat) := by grind
+      have h1 : ¬ (k ≤ rhs.floor) := by rw [Rat.le_floor_iff]; grind
+      have h2 : rhs.floor + 1 ≤ k := by omega
+      have : ((rhs.floor + 1 : Int) : Rat) ≤ ((k : Int) : Rat) := by exact_mod_cast h2
+      have e : ((rhs.floor + 1 : Int) : Rat) = (rhs.floor : Rat) + 1 := by push_cast; rfl
+      rw [e] at this; exact this
 
-/-- integer body value 1, right-hand side 3/2 (reachable with `cvt:pre:eqresult=0`, e.g. `b <==> (x + y == 1.5)`
-over integers): `res = 0` is what the original relation demands, but the emitted `body ≤ 1/2 ∨ body ≥ 5/2`
-(eps = 1 for integer bodies) excludes the point. -/
-theorem C01_counterexample_condeq_nonint_rhs :
-    ∃ (b rhs r : Rat), isIntVal b ∧ (r = 0 ∨ r = 1) ∧
-      rel .mix r (b2r (Cmp5.eq.holds b rhs)) ∧
-      ¬ ((Ctx.mix.eff.hasPos = true → r = 1 → b = rhs) ∧ (Ctx.mix.eff.hasNeg = true → r = 0 → neqPred 1 b rhs)) := by
-  refine ⟨1, 3/2, 0, isIntVal_one, Or.inl rfl, ?_, ?_⟩
-  · have : ¬ ((1 : Rat) = 3/2) := by grind
-    simp [rel, req, Ctx.eff, b2r, Cmp5.holds, this]
-  · simp [Ctx.eff, Ctx.hasNeg, Ctx.hasPos, neqPred]; grind
-
-
+/-- continuous bodies: complete at distance ≥ eps from rhs (or on it) -/
+theorem C01_gadget_condeq_complete_margin (ctx : Ctx) (o : Opts) (b rhs r : Rat) (hr : r = 0 ∨ r = 1)
+    (hmargin : b ≤ rhs - o.cmpEps ∨ b = rhs ∨ rhs + o.cmpEps ≤ b)
+    (h : rel ctx r (b2r (Cmp5.eq.holds b rhs))) :
+    (ctx.eff.hasPos = true → r = 1 → b = rhs) ∧
+      (ctx.eff.hasNeg = true → r = 0 → neqPred (condEqLo o false rhs) (condEqHi o false rhs) b) := by
+  rw [rel_b2r_iff ctx r _ hr] at h
+  obtain ⟨h1, h2⟩ := h
+  refine ⟨fun hp h0 => h1 hp h0, fun hn h0 => ?_⟩
+  have hne := h2 hn h0
+  simp only [Cmp5.holds] at hne
+  unfold neqPred condEqLo condEqHi
+  simp [cmpEpsOf]
+  rcases hmargin with hm | hm | hm
+  · left; exact hm
+  · exact absurd hm hne
+  · right; exact hm
 
 /-! ## implication `c ==> t else e`  →  `And(Or(!c, t), Or(c, e))` -/
 
@@ -1654,7 +1695,7 @@ theorem C01_gadget_count_binary_partial (res : Var) (args : List Var) (B : Bnds)
   have hv : (gCount res args B n).vars = [] := by rw [hg]
   exact ⟨fun y hd _ h => (key y hd).mp h, fun x hd h => realizable_self hv ((key x hd).mpr h)⟩
 
-/-! ## max / min: the convex direction (`res ≥ max`, `res ≤ min`) -/
+/-! ## max / min: order lemmas -/
 
 theorem maxL_le_iff (x : Asg) (a : Var) (t : List Var) (r : Rat) :
     maxL x a t ≤ r ↔ ∀ b ∈ a :: t, x b ≤ r := by
@@ -1713,43 +1754,785 @@ theorem le_minL_iff (x : Asg) (a : Var) (t : List Var) (r : Rat) :
         · exact h c (by simp [hc])
       · intro h c hc; exact h c (by simp [hc])
 
-/-- `MaxConverter_MIP` in negative context (`res ≥ max(args)`): one row per argument.
-The non-convex direction (flags + indicators) is modelled and correspondence-checked, not proved. -/
-theorem C01_gadget_max_neg_partial (res a : Var) (t : List Var) (B : Bnds) (n : Nat) :
-    Exact (gMax res (a :: t) .neg B n) n (fun _ => True)
-      (fun x => rel .neg (x res) (Fun.val x (.max (a :: t)))) := by
-  have hg : gMax res (a :: t) .neg B n = mmConvex 1 res (a :: t) := by
-    simp [gMax, dispatch, needNeg, needPos, Ctx.eff, Ctx.hasNeg, Ctx.hasPos, mmConvex]
-  have key : ∀ x : Asg, (∀ c ∈ (gMax res (a :: t) .neg B n).cons, c.sat x) ↔
-      rel .neg (x res) (Fun.val x (.max (a :: t))) := by
-    intro x
-    rw [hg]
-    simp only [rel, req, Ctx.eff, Fun.val, maxL_le_iff, mmConvex, List.mem_map, forall_exists_index, and_imp,
-      forall_apply_eq_imp_iff₂, Con.sat, Cmp.holds, evalLin_cons, evalLin_nil]
-    constructor
-    · intro h b hb; have := h b hb; grind
-    · intro h b hb; have := h b hb; grind
-  have hv : (gMax res (a :: t) .neg B n).vars = [] := by rw [hg]; rfl
-  exact ⟨fun y _ _ h => (key y).mp h, fun x _ h => realizable_self hv ((key x).mpr h)⟩
 
-/-- `MinConverter_MIP` in positive context (`res ≤ min(args)`) -/
-theorem C01_gadget_min_pos_partial (res a : Var) (t : List Var) (B : Bnds) (n : Nat) :
-    Exact (gMin res (a :: t) .pos B n) n (fun _ => True)
-      (fun x => rel .pos (x res) (Fun.val x (.min (a :: t)))) := by
-  have hg : gMin res (a :: t) .pos B n = mmConvex (-1) res (a :: t) := by
-    simp [gMin, dispatch, needNeg, needPos, Ctx.eff, Ctx.hasNeg, Ctx.hasPos, mmConvex]
-  have key : ∀ x : Asg, (∀ c ∈ (gMin res (a :: t) .pos B n).cons, c.sat x) ↔
-      rel .pos (x res) (Fun.val x (.min (a :: t))) := by
-    intro x
-    rw [hg]
-    simp only [rel, req, Ctx.eff, Fun.val, le_minL_iff, mmConvex, List.mem_map, forall_exists_index, and_imp,
-      forall_apply_eq_imp_iff₂, Con.sat, Cmp.holds, evalLin_cons, evalLin_nil]
-    constructor
-    · intro h b hb; have := h b hb; grind
-    · intro h b hb; have := h b hb; grind
-  have hv : (gMin res (a :: t) .pos B n).vars = [] := by rw [hg]; rfl
-  exact ⟨fun y _ _ h => (key y).mp h, fun x _ h => realizable_self hv ((key x).mpr h)⟩
 
+/-! ## numberof with a constant reference value -/
+
+/-- the reified comparisons `flag_i = (a_i == k)` emitted for the arguments, flags numbered from `n` -/
+def nocCons (k : Rat) : Nat → List Var → List Con
+  | _, [] => []
+  | n, a :: t => Con.func n .none (.condLin .eq [(1, a)] k) :: nocCons k (n + 1) t
+
+theorem nocCons_eq (k : Rat) (n : Nat) (args : List Var) :
+    ((List.zip (List.range' n args.length) args).map fun (f, a) => Con.func f .none (.condLin .eq [(1, a)] k))
+      = nocCons k n args := by
+  induction args generalizing n with
+  | nil => rfl
+  | cons a t ih =>
+    simp only [List.length_cons, List.range'_succ, List.zip_cons_cons, List.map_cons, nocCons]
+    rw [ih (n + 1)]
+
+theorem condEq1_val (y : Asg) (a : Var) (k : Rat) :
+    Fun.val y (.condLin .eq [(1, a)] k) = (if y a = k then 1 else 0) := by
+  show b2r (Cmp5.eq.holds (evalLin y [(1, a)]) k) = _
+  unfold b2r
+  by_cases e : y a = k
+  · have h : Cmp5.eq.holds (evalLin y [(1, a)]) k := by simp [Cmp5.holds]; grind
+    rw [if_pos h, if_pos e]
+  · have h : ¬ Cmp5.eq.holds (evalLin y [(1, a)]) k := by simp [Cmp5.holds]; grind
+    rw [if_neg h, if_neg e]
+
+theorem noc_sound (k : Rat) (n : Nat) (args : List Var) (y : Asg) (h : ∀ c ∈ nocCons k n args, c.sat y) :
+    evalLin y (ones (List.range' n args.length)) = countP (fun a => y a == k) args := by
+  induction args generalizing n with
+  | nil => rfl
+  | cons a t ih =>
+    have h0 := h (Con.func n .none (.condLin .eq [(1, a)] k)) (by simp [nocCons])
+    have ht := ih (n + 1) (fun c hc => h c (by simp [nocCons, hc]))
+    simp only [List.length_cons, List.range'_succ, ones_cons, evalLin_cons, countP, ht]
+    simp only [Con.sat, rel, req, Ctx.eff, condEq1_val] at h0
+    rw [h0]
+    by_cases e : y a = k <;> simp [e] <;> grind
+
+theorem noc_complete (k : Rat) (n0 : Nat) (args : List Var) (hargs : ∀ a ∈ args, a < n0) :
+    ∀ (n : Nat) (x : Asg), n0 ≤ n →
+      ∃ x' : Asg, (∀ v, v < n → x' v = x v) ∧ (∀ c ∈ nocCons k n args, c.sat x') ∧
+        auxOk n x' (args.map fun _ => VarInfo.binary) := by
+  induction args with
+  | nil => intro n x _; exact ⟨x, fun _ _ => rfl, by simp [nocCons], by simp [auxOk]⟩
+  | cons a t ih =>
+    intro n x hn
+    have ha : (a : Nat) < n0 := hargs a (by simp)
+    have k1 : n0 ≤ n + 1 := by omega
+    have k2 : n < n + 1 := by omega
+    have k3 : a < n + 1 := Nat.lt_succ_of_lt (Nat.lt_of_lt_of_le ha hn)
+    have k4 : a ≠ n := Nat.ne_of_lt (Nat.lt_of_lt_of_le ha hn)
+    obtain ⟨x', hag, hcs, hax⟩ := ih (fun b hb => hargs b (by simp [hb])) (n + 1)
+      (fun v => if v = n then (if x a = k then 1 else 0) else x v) k1
+    have en : x' n = (if x a = k then 1 else 0) := by rw [hag n k2]; simp
+    have ea : x' a = x a := by rw [hag a k3]; simp [k4]
+    refine ⟨x', ?_, ?_, ?_⟩
+    · intro v hv
+      have q1 : v < n + 1 := by omega
+      have q2 : v ≠ n := by omega
+      rw [hag v q1]; simp [q2]
+    · intro c hc
+      simp only [nocCons, List.mem_cons] at hc
+      rcases hc with hc | hc
+      · subst hc
+        simp only [Con.sat, rel, req, Ctx.eff, condEq1_val, en, ea]
+      · exact hcs c hc
+    · simp only [List.map_cons, auxOk]
+      refine ⟨?_, hax⟩
+      rw [en]; apply admits_binary_of; split <;> simp
+
+theorem countEq_agree (k : Rat) (n : Nat) (args : List Var) (x x' : Asg) (hag : ∀ v, v < n → x' v = x v)
+    (hargs : ∀ a ∈ args, a < n) : countP (fun a => x' a == k) args = countP (fun a => x a == k) args := by
+  induction args with
+  | nil => rfl
+  | cons a t ih =>
+    simp only [countP, hag a (hargs a (by simp)), ih (fun b hb => hargs b (by simp [hb]))]
+
+/-- `NumberofConstConverter_MIP`: fresh reified comparisons `flag_i = (a_i == k)` and `Σ flag_i = res`.
+(Inputs where the preprocessing of `a_i == k` takes a shortcut are outside the model: `unmodelled`.) -/
+theorem C01_gadget_numberof_const (res : Var) (k : Rat) (args : List Var) (B : Bnds) (n : Nat)
+    (hr : res < n) (hargs : ∀ a ∈ args, a < n) :
+    Exact (gNumberofConst res k args B n) n (fun _ => True)
+      (fun x => x res = Fun.val x (.numberofConst k args)) := by
+  have hcons : (gNumberofConst res k args B n).cons
+      = nocCons k n args ++ [.linRhs .eq (ones (List.range' n args.length) ++ [(-1, res)]) 0] := by
+    simp only [gNumberofConst]; rw [nocCons_eq]
+  constructor
+  · intro y _ _ hc
+    rw [hcons] at hc
+    have s1 := noc_sound k n args y (fun c h => hc c (by simp [h]))
+    have s2 := hc (.linRhs .eq (ones (List.range' n args.length) ++ [(-1, res)]) 0) (by simp)
+    simp only [Con.sat, Cmp.holds, evalLin_append, evalLin_cons, evalLin_nil, s1] at s2
+    simp only [Fun.val]; grind
+  · intro x _ h
+    obtain ⟨x', hag, hcs, hax⟩ := noc_complete k n args hargs n x (Nat.le_refl n)
+    refine ⟨x', hag, ?_, ?_⟩
+    · simpa [gNumberofConst] using hax
+    · rw [hcons]
+      intro c hc
+      simp only [List.mem_append, List.mem_singleton] at hc
+      rcases hc with hc | hc
+      · exact hcs c hc
+      · subst hc
+        have s1 := noc_sound k n args x' hcs
+        have ec := countEq_agree k n args x x' hag hargs
+        simp only [Con.sat, Cmp.holds, evalLin_append, evalLin_cons, evalLin_nil, s1, ec, hag res hr]
+        simp only [Fun.val] at h; grind
+
+
+
+/-! ## numberof with a variable reference value -/
+
+def novCons (ref : Var) : Nat → List Var → List Con
+  | _, [] => []
+  | n, a :: t => Con.func n .none (.condLin .eq [(1, a), (-1, ref)] 0) :: novCons ref (n + 1) t
+
+theorem novCons_eq (ref : Var) (n : Nat) (args : List Var) :
+    ((List.zip (List.range' n args.length) args).map fun (f, a) =>
+        Con.func f .none (.condLin .eq [(1, a), (-1, ref)] 0))
+      = novCons ref n args := by
+  induction args generalizing n with
+  | nil => rfl
+  | cons a t ih =>
+    simp only [List.length_cons, List.range'_succ, List.zip_cons_cons, List.map_cons, novCons]
+    rw [ih (n + 1)]
+
+theorem condEq2_val (y : Asg) (a ref : Var) :
+    Fun.val y (.condLin .eq [(1, a), (-1, ref)] 0) = (if y a = y ref then 1 else 0) := by
+  show b2r (Cmp5.eq.holds (evalLin y [(1, a), (-1, ref)]) 0) = _
+  unfold b2r
+  by_cases e : y a = y ref
+  · have h : Cmp5.eq.holds (evalLin y [(1, a), (-1, ref)]) 0 := by simp [Cmp5.holds]; grind
+    rw [if_pos h, if_pos e]
+  · have h : ¬ Cmp5.eq.holds (evalLin y [(1, a), (-1, ref)]) 0 := by simp [Cmp5.holds]; grind
+    rw [if_neg h, if_neg e]
+
+theorem nov_sound (ref : Var) (n : Nat) (args : List Var) (y : Asg) (h : ∀ c ∈ novCons ref n args, c.sat y) :
+    evalLin y (ones (List.range' n args.length)) = countP (fun a => y a == y ref) args := by
+  induction args generalizing n with
+  | nil => rfl
+  | cons a t ih =>
+    have h0 := h (Con.func n .none (.condLin .eq [(1, a), (-1, ref)] 0)) (by simp [novCons])
+    have ht := ih (n + 1) (fun c hc => h c (by simp [novCons, hc]))
+    simp only [List.length_cons, List.range'_succ, ones_cons, evalLin_cons, countP, ht]
+    simp only [Con.sat, rel, req, Ctx.eff, condEq2_val] at h0
+    rw [h0]
+    by_cases e : y a = y ref <;> simp [e] <;> grind
+
+theorem nov_complete (ref : Var) (n0 : Nat) (hrf : ref < n0) (args : List Var) (hargs : ∀ a ∈ args, a < n0) :
+    ∀ (n : Nat) (x : Asg), n0 ≤ n →
+      ∃ x' : Asg, (∀ v, v < n → x' v = x v) ∧ (∀ c ∈ novCons ref n args, c.sat x') ∧
+        auxOk n x' (args.map fun _ => VarInfo.binary) := by
+  induction args with
+  | nil => intro n x _; exact ⟨x, fun _ _ => rfl, by simp [novCons], by simp [auxOk]⟩
+  | cons a t ih =>
+    intro n x hn
+    have ha : (a : Nat) < n0 := hargs a (by simp)
+    have k1 : n0 ≤ n + 1 := by omega
+    have k2 : n < n + 1 := by omega
+    have k3 : a < n + 1 := Nat.lt_succ_of_lt (Nat.lt_of_lt_of_le ha hn)
+    have k4 : a ≠ n := Nat.ne_of_lt (Nat.lt_of_lt_of_le ha hn)
+    have k5 : ref < n + 1 := Nat.lt_succ_of_lt (Nat.lt_of_lt_of_le hrf hn)
+    have k6 : ref ≠ n := Nat.ne_of_lt (Nat.lt_of_lt_of_le hrf hn)
+    obtain ⟨x', hag, hcs, hax⟩ := ih (fun b hb => hargs b (by simp [hb])) (n + 1)
+      (fun v => if v = n then (if x a = x ref then 1 else 0) else x v) k1
+    have en : x' n = (if x a = x ref then 1 else 0) := by rw [hag n k2]; simp
+    have ea : x' a = x a := by rw [hag a k3]; simp [k4]
+    have er : x' ref = x ref := by rw [hag ref k5]; simp [k6]
+    refine ⟨x', ?_, ?_, ?_⟩
+    · intro v hv
+      have q1 : v < n + 1 := by omega
+      have q2 : v ≠ n := by omega
+      rw [hag v q1]; simp [q2]
+    · intro c hc
+      simp only [novCons, List.mem_cons] at hc
+      rcases hc with hc | hc
+      · subst hc
+        simp only [Con.sat, rel, req, Ctx.eff, condEq2_val, en, ea, er]
+      · exact hcs c hc
+    · simp only [List.map_cons, auxOk]
+      refine ⟨?_, hax⟩
+      rw [en]; apply admits_binary_of; split <;> simp
+
+theorem countEqV_agree (ref : Var) (n : Nat) (args : List Var) (x x' : Asg) (hag : ∀ v, v < n → x' v = x v)
+    (hrf : ref < n) (hargs : ∀ a ∈ args, a < n) :
+    countP (fun a => x' a == x' ref) args = countP (fun a => x a == x ref) args := by
+  induction args with
+  | nil => rfl
+  | cons a t ih =>
+    have iht := ih (fun b hb => hargs b (by simp [hb]))
+    simp only [countP, hag a (hargs a (by simp)), iht]
+    rw [hag ref hrf]
+
+/-- `NumberofVarConverter_MIP`: `flag_i = (a_i - ref == 0)`, `-res + Σ flag_i = 0` -/
+theorem C01_gadget_numberof_var (res ref : Var) (args : List Var) (B : Bnds) (n : Nat)
+    (hr : res < n) (hrf : ref < n) (hargs : ∀ a ∈ args, a < n) :
+    Exact (gNumberofVar res ref args B n) n (fun _ => True)
+      (fun x => x res = Fun.val x (.numberofVar ref args)) := by
+  have hcons : (gNumberofVar res ref args B n).cons
+      = novCons ref n args ++ [.linRhs .eq ((-1, res) :: ones (List.range' n args.length)) 0] := by
+    simp only [gNumberofVar]; rw [novCons_eq]
+  constructor
+  · intro y _ _ hc
+    rw [hcons] at hc
+    have s1 := nov_sound ref n args y (fun c h => hc c (by simp [h]))
+    have s2 := hc (.linRhs .eq ((-1, res) :: ones (List.range' n args.length)) 0) (by simp)
+    simp only [Con.sat, Cmp.holds, evalLin_cons, s1] at s2
+    simp only [Fun.val]; grind
+  · intro x _ h
+    obtain ⟨x', hag, hcs, hax⟩ := nov_complete ref n hrf args hargs n x (Nat.le_refl n)
+    refine ⟨x', hag, ?_, ?_⟩
+    · simpa [gNumberofVar] using hax
+    · rw [hcons]
+      intro c hc
+      simp only [List.mem_append, List.mem_singleton] at hc
+      rcases hc with hc | hc
+      · exact hcs c hc
+      · subst hc
+        have s1 := nov_sound ref n args x' hcs
+        have ec := countEqV_agree ref n args x x' hag hrf hargs
+        simp only [Con.sat, Cmp.holds, evalLin_cons, s1, ec, hag res hr]
+        simp only [Fun.val] at h; grind
+
+
+
+/-! ## max / min: the non-convex direction (`res ≤ max`, `res ≥ min`) with one binary flag per argument -/
+
+def mmInd (s : Rat) (res : Var) : Nat → List Var → List Con
+  | _, [] => []
+  | n, a :: t => Con.indLin n 1 .le [(1 * s, res), (-1 * s, a)] 0 :: mmInd s res (n + 1) t
+
+theorem mmInd_eq (s : Rat) (res : Var) (n : Nat) (args : List Var) :
+    ((List.zip (List.range' n args.length) args).map fun (f, a) =>
+        Con.indLin f 1 .le [(1 * s, res), (-1 * s, a)] 0) = mmInd s res n args := by
+  induction args generalizing n with
+  | nil => rfl
+  | cons a t ih =>
+    simp only [List.length_cons, List.range'_succ, List.zip_cons_cons, List.map_cons, mmInd]
+    rw [ih (n + 1)]
+
+theorem mm_cons (s : Rat) (res : Var) (args : List Var) (n : Nat) :
+    (mmNonConvex s res args n).cons
+      = .linRhs .ge (ones (List.range' n args.length)) 1 :: mmInd s res n args := by
+  simp only [mmNonConvex]; rw [mmInd_eq]
+
+/-- some flag is 1 ⇒ the corresponding argument bounds `res` -/
+theorem mm_sound (s : Rat) (res : Var) (n : Nat) (args : List Var) (y : Asg)
+    (h : ∀ c ∈ mmInd s res n args, c.sat y)
+    (hf : ∃ f ∈ List.range' n args.length, y f = 1) :
+    ∃ a ∈ args, s * y res ≤ s * y a := by
+  induction args generalizing n with
+  | nil => simp at hf
+  | cons a t ih =>
+    obtain ⟨f, hfm, hf1⟩ := hf
+    simp only [List.length_cons, List.range'_succ, List.mem_cons] at hfm
+    rcases hfm with hfm | hfm
+    · subst hfm
+      have h0 := h (Con.indLin f 1 .le [(1 * s, res), (-1 * s, a)] 0) (by simp [mmInd])
+      simp only [Con.sat, Cmp.holds, evalLin_cons, evalLin_nil] at h0
+      have := h0 (by rw [hf1]; simp)
+      exact ⟨a, by simp, by grind⟩
+    · obtain ⟨b, hb, hle⟩ := ih (n + 1) (fun c hc => h c (by simp [mmInd, hc])) ⟨f, hfm, hf1⟩
+      exact ⟨b, by simp [hb], hle⟩
+
+theorem ones_zero (y : Asg) (l : List Var) (h : ∀ f ∈ l, y f = 0) : evalLin y (ones l) = 0 := by
+  induction l with
+  | nil => rfl
+  | cons f t ih =>
+    simp only [ones_cons, evalLin_cons, h f (by simp), ih (fun g hg => h g (by simp [hg]))]; grind
+
+/-- all flags from `n` on set to zero: every indicator row is vacuous -/
+theorem mm_zero (s : Rat) (res : Var) (n0 : Nat) (hres : res < n0) (args : List Var) (hargs : ∀ a ∈ args, a < n0)
+    (n : Nat) (hn : n0 ≤ n) (x' : Asg) (hz : ∀ v, n ≤ v → x' v = 0) :
+    (∀ c ∈ mmInd s res n args, c.sat x') ∧ auxOk n x' (args.map fun _ => VarInfo.binary) := by
+  induction args generalizing n with
+  | nil => simp [mmInd, auxOk]
+  | cons a t ih =>
+    have k1 : n0 ≤ n + 1 := by omega
+    have iht := ih (fun b hb => hargs b (by simp [hb])) (n + 1) k1 (fun v hv => hz v (by omega))
+    constructor
+    · intro c hc
+      simp only [mmInd, List.mem_cons] at hc
+      rcases hc with hc | hc
+      · subst hc
+        simp only [Con.sat]
+        intro h1; rw [hz n (Nat.le_refl n)] at h1; exact absurd h1 (by simp)
+      · exact iht.1 c hc
+    · simp only [List.map_cons, auxOk]
+      exact ⟨by rw [hz n (Nat.le_refl n)]; exact admits_binary_of (Or.inl rfl), iht.2⟩
+
+theorem mm_complete (s : Rat) (res : Var) (n0 : Nat) (hres : res < n0) (args : List Var)
+    (hargs : ∀ a ∈ args, a < n0) :
+    ∀ (n : Nat) (x : Asg), n0 ≤ n → (∃ a ∈ args, s * x res ≤ s * x a) →
+      ∃ x' : Asg, (∀ v, v < n → x' v = x v) ∧ (∀ c ∈ mmInd s res n args, c.sat x') ∧
+        auxOk n x' (args.map fun _ => VarInfo.binary) ∧ 1 ≤ evalLin x' (ones (List.range' n args.length)) := by
+  induction args with
+  | nil => intro n x _ h; simp at h
+  | cons a t ih =>
+    intro n x hn hex
+    have ha : (a : Nat) < n0 := hargs a (by simp)
+    have k1 : n0 ≤ n + 1 := by omega
+    have k2 : n < n + 1 := by omega
+    have ka : a ≠ n := Nat.ne_of_lt (Nat.lt_of_lt_of_le ha hn)
+    have kr : res ≠ n := Nat.ne_of_lt (Nat.lt_of_lt_of_le hres hn)
+    by_cases hhead : s * x res ≤ s * x a
+    · -- choose the head: flag n = 1, all later flags 0
+      have hx'z : ∀ v, n + 1 ≤ v → (fun v => if v = n then (1 : Rat) else if n < v then 0 else x v) v = 0 := by
+        intro v hv
+        have q1 : v ≠ n := by omega
+        have q2 : n < v := by omega
+        simp [q1, q2]
+      have zt := mm_zero s res n0 hres t (fun b hb => hargs b (by simp [hb])) (n + 1) k1 _ hx'z
+      refine ⟨fun v => if v = n then (1 : Rat) else if n < v then 0 else x v, ?_, ?_, ?_, ?_⟩
+      · intro v hv
+        have q1 : v ≠ n := by omega
+        have q2 : ¬ n < v := by omega
+        simp [q1, q2]
+      · intro c hc
+        simp only [mmInd, List.mem_cons] at hc
+        rcases hc with hc | hc
+        · subst hc
+          have q3 : ¬ n < a := Nat.lt_asymm (Nat.lt_of_lt_of_le ha hn)
+          have q4 : ¬ n < res := Nat.lt_asymm (Nat.lt_of_lt_of_le hres hn)
+          simp only [Con.sat, Cmp.holds, evalLin_cons, evalLin_nil, ka, kr, q3, q4, if_false]
+          intro _; grind
+        · exact zt.1 c hc
+      · simp only [List.map_cons, auxOk, if_true]
+        exact ⟨admits_binary_of (Or.inr rfl), zt.2⟩
+      · simp only [List.length_cons, List.range'_succ, ones_cons, evalLin_cons, if_true]
+        have := ones_zero (fun v => if v = n then (1 : Rat) else if n < v then 0 else x v)
+          (List.range' (n + 1) t.length) (by
+            intro f hf
+            have : n + 1 ≤ f := by simp [List.mem_range'] at hf; omega
+            exact hx'z f this)
+        rw [this]; grind
+    · -- the witness is in the tail: flag n = 0
+      have hex' : ∃ b ∈ t, s * x res ≤ s * x b := by
+        obtain ⟨b, hb, hle⟩ := hex
+        simp only [List.mem_cons] at hb
+        rcases hb with hb | hb
+        · subst hb; exact absurd hle hhead
+        · exact ⟨b, hb, hle⟩
+      have hex1 : ∃ b ∈ t, s * (fun v => if v = n then (0 : Rat) else x v) res
+          ≤ s * (fun v => if v = n then (0 : Rat) else x v) b := by
+        obtain ⟨b, hb, hle⟩ := hex'
+        have hbn : (b : Nat) < n0 := hargs b (by simp [hb])
+        have kb : b ≠ n := Nat.ne_of_lt (Nat.lt_of_lt_of_le hbn hn)
+        exact ⟨b, hb, by simp [kr, kb]; exact hle⟩
+      obtain ⟨x', hag, hcs, hax, hsum⟩ := ih (fun b hb => hargs b (by simp [hb])) (n + 1)
+        (fun v => if v = n then (0 : Rat) else x v) k1 hex1
+      have en : x' n = 0 := by rw [hag n k2]; simp
+      refine ⟨x', ?_, ?_, ?_, ?_⟩
+      · intro v hv
+        have q1 : v < n + 1 := by omega
+        have q2 : v ≠ n := by omega
+        rw [hag v q1]; simp [q2]
+      · intro c hc
+        simp only [mmInd, List.mem_cons] at hc
+        rcases hc with hc | hc
+        · subst hc
+          simp only [Con.sat]
+          intro h1; rw [en] at h1; exact absurd h1 (by simp)
+        · exact hcs c hc
+      · simp only [List.map_cons, auxOk]
+        exact ⟨by rw [en]; exact admits_binary_of (Or.inl rfl), hax⟩
+      · simp only [List.length_cons, List.range'_succ, ones_cons, evalLin_cons, en]; grind
+
+
+theorem le_maxL_iff (x : Asg) (a : Var) (t : List Var) (r : Rat) :
+    r ≤ maxL x a t ↔ ∃ b ∈ a :: t, r ≤ x b := by
+  induction t generalizing a with
+  | nil => simp [maxL]
+  | cons b t ih =>
+    simp only [maxL]
+    split
+    · rename_i hle
+      rw [ih b]
+      constructor
+      · intro ⟨c, hc, h⟩; exact ⟨c, by simp [List.mem_cons] at hc ⊢; exact Or.inr hc, h⟩
+      · intro ⟨c, hc, h⟩
+        simp only [List.mem_cons] at hc
+        rcases hc with hc | hc
+        · subst hc
+          have : r ≤ maxL x b t := by grind
+          exact (ih b).mp this
+        · exact ⟨c, by simp [List.mem_cons]; exact hc, h⟩
+    · rename_i hnle
+      constructor
+      · intro h; exact ⟨a, by simp, h⟩
+      · intro ⟨c, hc, h⟩
+        simp only [List.mem_cons] at hc
+        rcases hc with hc | hc
+        · subst hc; exact h
+        · have : r ≤ maxL x b t := (ih b).mpr ⟨c, by simp [List.mem_cons]; exact hc, h⟩
+          grind
+
+theorem minL_le_iff (x : Asg) (a : Var) (t : List Var) (r : Rat) :
+    minL x a t ≤ r ↔ ∃ b ∈ a :: t, x b ≤ r := by
+  induction t generalizing a with
+  | nil => simp [minL]
+  | cons b t ih =>
+    simp only [minL]
+    split
+    · rename_i hle
+      constructor
+      · intro h; exact ⟨a, by simp, h⟩
+      · intro ⟨c, hc, h⟩
+        simp only [List.mem_cons] at hc
+        rcases hc with hc | hc
+        · subst hc; exact h
+        · have : minL x b t ≤ r := (ih b).mpr ⟨c, by simp [List.mem_cons]; exact hc, h⟩
+          grind
+    · rename_i hnle
+      rw [ih b]
+      constructor
+      · intro ⟨c, hc, h⟩; exact ⟨c, by simp [List.mem_cons] at hc ⊢; exact Or.inr hc, h⟩
+      · intro ⟨c, hc, h⟩
+        simp only [List.mem_cons] at hc
+        rcases hc with hc | hc
+        · subst hc
+          have : minL x b t ≤ r := by grind
+          exact (ih b).mp this
+        · exact ⟨c, by simp [List.mem_cons]; exact hc, h⟩
+
+theorem auxOk_binary (n : Nat) (y : Asg) (l : List Var) (h : auxOk n y (l.map fun _ => VarInfo.binary)) :
+    ∀ f ∈ List.range' n l.length, y f = 0 ∨ y f = 1 := by
+  induction l generalizing n with
+  | nil => simp
+  | cons a t ih =>
+    simp only [List.map_cons, auxOk] at h
+    intro f hf
+    simp only [List.length_cons, List.range'_succ, List.mem_cons] at hf
+    rcases hf with hf | hf
+    · subst hf; exact binary_admits h.1
+    · exact ih (n + 1) h.2 f hf
+
+theorem flag_exists (n : Nat) (y : Asg) (l : List Var) (hb : ∀ f ∈ List.range' n l.length, y f = 0 ∨ y f = 1)
+    (hs : 1 ≤ evalLin y (ones (List.range' n l.length))) : ∃ f ∈ List.range' n l.length, y f = 1 := by
+  cases hany : (List.range' n l.length).any (fun f => y f == 1)
+  · have := sum_bin_none y _ hb hany
+    rw [this] at hs; exact absurd hs (by grind)
+  · obtain ⟨f, hf, h1⟩ := List.any_eq_true.mp hany
+    exact ⟨f, hf, by simpa using h1⟩
+
+theorem mmConvex_iff (s : Rat) (res : Var) (args : List Var) (y : Asg) :
+    (∀ c ∈ (mmConvex s res args).cons, c.sat y) ↔ ∀ b ∈ args, s * y b ≤ s * y res := by
+  simp only [mmConvex, List.mem_map, forall_exists_index, and_imp, forall_apply_eq_imp_iff₂, Con.sat, Cmp.holds,
+    evalLin_cons, evalLin_nil]
+  constructor
+  · intro h b hb; have := h b hb; grind
+  · intro h b hb; have := h b hb; grind
+
+/-- numeric dispatch, auxiliaries only in the positive part -/
+theorem dispatch_num_pos (ctx : Ctx) (rv : VarInfo) (n : Nat) (oN : Out) (oPf : Nat → Out)
+    (hN0 : oN.refusal = none) (hNv : oN.vars = []) (hP0 : ∀ m, (oPf m).refusal = none) :
+    (dispatch ctx false rv n (fun _ => oN) oPf).vars = (if ctx.eff.hasPos = true then (oPf n).vars else []) ∧
+    (dispatch ctx false rv n (fun _ => oN) oPf).cons
+      = (if ctx.eff.hasNeg = true then oN.cons else []) ++ (if ctx.eff.hasPos = true then (oPf n).cons else []) := by
+  cases hn : ctx.eff.hasNeg <;> cases hp : ctx.eff.hasPos <;>
+    simp [dispatch, needNeg, needPos, hn, hp, hN0, hNv, hP0]
+
+/-- numeric dispatch, auxiliaries only in the negative part -/
+theorem dispatch_num_neg (ctx : Ctx) (rv : VarInfo) (n : Nat) (oNf : Nat → Out) (oP : Out)
+    (hN0 : ∀ m, (oNf m).refusal = none) (hP0 : oP.refusal = none) (hPv : oP.vars = []) :
+    (dispatch ctx false rv n oNf (fun _ => oP)).vars = (if ctx.eff.hasNeg = true then (oNf n).vars else []) ∧
+    (dispatch ctx false rv n oNf (fun _ => oP)).cons
+      = (if ctx.eff.hasNeg = true then (oNf n).cons else []) ++ (if ctx.eff.hasPos = true then oP.cons else []) := by
+  cases hn : ctx.eff.hasNeg <;> cases hp : ctx.eff.hasPos <;>
+    simp [dispatch, needNeg, needPos, hn, hp, hN0, hP0, hPv]
+
+/-- the non-convex part alone: sound -/
+theorem mmNonConvex_sound (s : Rat) (res : Var) (args : List Var) (n : Nat) (y : Asg)
+    (hax : auxOk n y (mmNonConvex s res args n).vars) (hc : ∀ c ∈ (mmNonConvex s res args n).cons, c.sat y) :
+    ∃ b ∈ args, s * y res ≤ s * y b := by
+  rw [mm_cons] at hc
+  have hsum := hc (.linRhs .ge (ones (List.range' n args.length)) 1) (by simp)
+  simp only [Con.sat, Cmp.holds] at hsum
+  have hvars : auxOk n y (args.map fun _ => VarInfo.binary) := by simpa [mmNonConvex] using hax
+  have hfl := flag_exists n y args (auxOk_binary n y args hvars) hsum
+  exact mm_sound s res n args y (fun c hcm => hc c (by simp [hcm])) hfl
+
+/-- the non-convex part alone: complete -/
+theorem mmNonConvex_complete (s : Rat) (res : Var) (args : List Var) (n : Nat) (x : Asg)
+    (hr : res < n) (hargs : ∀ b ∈ args, b < n) (h : ∃ b ∈ args, s * x res ≤ s * x b) :
+    ∃ x' : Asg, agree n x x' ∧ auxOk n x' (mmNonConvex s res args n).vars ∧
+      ∀ c ∈ (mmNonConvex s res args n).cons, c.sat x' := by
+  obtain ⟨x', hag, hcs, hax, hsum⟩ := mm_complete s res n hr args hargs n x (Nat.le_refl n) h
+  refine ⟨x', hag, by simpa [mmNonConvex] using hax, ?_⟩
+  rw [mm_cons]
+  intro c hc
+  simp only [List.mem_cons] at hc
+  rcases hc with hc | hc
+  · subst hc; simpa [Con.sat, Cmp.holds] using hsum
+  · exact hcs c hc
+
+/-- `MaxConverter_MIP`, every context: convex rows for `res ≥ max`, flags + indicators for `res ≤ max` -/
+theorem C01_gadget_max (res a : Var) (t : List Var) (ctx : Ctx) (B : Bnds) (n : Nat)
+    (hr : res < n) (hargs : ∀ b ∈ a :: t, b < n) :
+    Exact (gMax res (a :: t) ctx B n) n (fun _ => True)
+      (fun x => rel ctx (x res) (Fun.val x (.max (a :: t)))) := by
+  obtain ⟨dv, dc⟩ := dispatch_num_pos ctx (B res) n (mmConvex 1 res (a :: t)) (fun m => mmNonConvex 1 res (a :: t) m)
+    rfl rfl (fun _ => rfl)
+  constructor
+  · intro y _ haux hc
+    simp only [gMax] at haux hc
+    rw [dv] at haux; rw [dc] at hc
+    rw [rel_iff]; simp only [Fun.val]
+    constructor
+    · intro hp
+      simp only [hp, if_true] at haux hc
+      obtain ⟨b, hb, hle⟩ := mmNonConvex_sound 1 res (a :: t) n y haux (fun c hcm => hc c (by simp [hcm]))
+      exact (le_maxL_iff y a t _).mpr ⟨b, hb, by grind⟩
+    · intro hn
+      simp only [hn, if_true] at hc
+      have := (mmConvex_iff 1 res (a :: t) y).mp (fun c hcm => hc c (by simp [hcm]))
+      exact (maxL_le_iff y a t _).mpr (fun b hb => by have := this b hb; grind)
+  · intro x _ h
+    rw [rel_iff] at h; simp only [Fun.val] at h
+    simp only [Out.realizable, gMax]; rw [dv, dc]
+    have convex_at : ∀ x' : Asg, agree n x x' → ctx.eff.hasNeg = true →
+        ∀ c ∈ (mmConvex 1 res (a :: t)).cons, c.sat x' := by
+      intro x' hag hn
+      refine (mmConvex_iff 1 res (a :: t) x').mpr ?_
+      intro b' hb'
+      rw [hag b' (hargs b' hb'), hag res hr]
+      have := (maxL_le_iff x a t _).mp (h.2 hn) b' hb'
+      grind
+    by_cases hp : ctx.eff.hasPos = true
+    · obtain ⟨b, hb, hle⟩ := (le_maxL_iff x a t _).mp (h.1 hp)
+      obtain ⟨x', hag, hax, hcs⟩ := mmNonConvex_complete 1 res (a :: t) n x hr hargs ⟨b, hb, by grind⟩
+      refine ⟨x', hag, by simpa [hp] using hax, ?_⟩
+      intro c hc
+      simp only [hp, if_true, List.mem_append] at hc
+      rcases hc with hc | hc
+      · by_cases hn : ctx.eff.hasNeg = true
+        · simp only [hn, if_true] at hc; exact convex_at x' hag hn c hc
+        · simp [hn] at hc
+      · exact hcs c hc
+    · refine ⟨x, fun _ _ => rfl, by simp [hp, auxOk], ?_⟩
+      intro c hc
+      simp only [hp, Bool.false_eq_true, if_false, List.append_nil] at hc
+      by_cases hn : ctx.eff.hasNeg = true
+      · simp only [hn, if_true] at hc; exact convex_at x (fun _ _ => rfl) hn c hc
+      · simp [hn] at hc
+
+/-- `MinConverter_MIP`, every context: convex rows for `res ≤ min`, flags + indicators for `res ≥ min` -/
+theorem C01_gadget_min (res a : Var) (t : List Var) (ctx : Ctx) (B : Bnds) (n : Nat)
+    (hr : res < n) (hargs : ∀ b ∈ a :: t, b < n) :
+    Exact (gMin res (a :: t) ctx B n) n (fun _ => True)
+      (fun x => rel ctx (x res) (Fun.val x (.min (a :: t)))) := by
+  obtain ⟨dv, dc⟩ := dispatch_num_neg ctx (B res) n (fun m => mmNonConvex (-1) res (a :: t) m) (mmConvex (-1) res (a :: t))
+    (fun _ => rfl) rfl rfl
+  constructor
+  · intro y _ haux hc
+    simp only [gMin] at haux hc
+    rw [dv] at haux; rw [dc] at hc
+    rw [rel_iff]; simp only [Fun.val]
+    constructor
+    · intro hp
+      simp only [hp, if_true] at hc
+      have := (mmConvex_iff (-1) res (a :: t) y).mp (fun c hcm => hc c (by simp [hcm]))
+      exact (le_minL_iff y a t _).mpr (fun b hb => by have := this b hb; grind)
+    · intro hn
+      simp only [hn, if_true] at haux hc
+      obtain ⟨b, hb, hle⟩ := mmNonConvex_sound (-1) res (a :: t) n y haux (fun c hcm => hc c (by simp [hcm]))
+      exact (minL_le_iff y a t _).mpr ⟨b, hb, by grind⟩
+  · intro x _ h
+    rw [rel_iff] at h; simp only [Fun.val] at h
+    simp only [Out.realizable, gMin]; rw [dv, dc]
+    have convex_at : ∀ x' : Asg, agree n x x' → ctx.eff.hasPos = true →
+        ∀ c ∈ (mmConvex (-1) res (a :: t)).cons, c.sat x' := by
+      intro x' hag hp
+      refine (mmConvex_iff (-1) res (a :: t) x').mpr ?_
+      intro b' hb'
+      rw [hag b' (hargs b' hb'), hag res hr]
+      have := (le_minL_iff x a t _).mp (h.1 hp) b' hb'
+      grind
+    by_cases hn : ctx.eff.hasNeg = true
+    · obtain ⟨b, hb, hle⟩ := (minL_le_iff x a t _).mp (h.2 hn)
+      obtain ⟨x', hag, hax, hcs⟩ := mmNonConvex_complete (-1) res (a :: t) n x hr hargs ⟨b, hb, by grind⟩
+      refine ⟨x', hag, by simpa [hn] using hax, ?_⟩
+      intro c hc
+      simp only [hn, if_true, List.mem_append] at hc
+      rcases hc with hc | hc
+      · exact hcs c hc
+      · by_cases hp : ctx.eff.hasPos = true
+        · simp only [hp, if_true] at hc; exact convex_at x' hag hp c hc
+        · simp [hp] at hc
+    · refine ⟨x, fun _ _ => rfl, by simp [hn, auxOk], ?_⟩
+      intro c hc
+      simp only [hn, Bool.false_eq_true, if_false, List.nil_append] at hc
+      by_cases hp : ctx.eff.hasPos = true
+      · simp only [hp, if_true] at hc; exact convex_at x (fun _ _ => rfl) hp c hc
+      · simp [hp] at hc
+
+
+/-! ## unary encoding -/
+
+theorem uencOK_zero (y : Asg) (w : Rat) (k : Int) (flags : List Var) (hz : ∀ f ∈ flags, y f = 0)
+    (hw : w < (k : Rat)) : uencOK y w k flags := by
+  induction flags generalizing k with
+  | nil => trivial
+  | cons f t ih =>
+    refine ⟨?_, ih (k + 1) (fun g hg => hz g (by simp [hg])) (by push_cast; grind)⟩
+    rw [hz f (by simp)]
+    constructor
+    · intro h; exact absurd h (by grind)
+    · intro h; rw [h] at hw; exact absurd hw (by grind)
+
+theorem uencLin_zero (y : Asg) (k : Int) (flags : List Var) (hz : ∀ f ∈ flags, y f = 0) :
+    evalLin y (uencLin k flags) = 0 := by
+  induction flags generalizing k with
+  | nil => rfl
+  | cons f t ih =>
+    simp only [uencLin, evalLin_cons, hz f (by simp), ih (k + 1) (fun g hg => hz g (by simp [hg]))]; grind
+
+theorem all_zero_of_sum (y : Asg) (flags : List Var) (hb : ∀ f ∈ flags, y f = 0 ∨ y f = 1)
+    (hs : evalLin y (ones flags) = 0) : ∀ f ∈ flags, y f = 0 := by
+  induction flags with
+  | nil => simp
+  | cons f t ih =>
+    have hbt : ∀ g ∈ t, y g = 0 ∨ y g = 1 := fun g hg => hb g (by simp [hg])
+    have bt := sum_bin_bounds y t hbt
+    simp only [ones_cons, evalLin_cons] at hs
+    intro g hg
+    simp only [List.mem_cons] at hg
+    rcases hb f (by simp) with h0 | h0
+    · rw [h0] at hs
+      rcases hg with hg | hg
+      · subst hg; exact h0
+      · exact ih hbt (by grind) g hg
+    · rw [h0] at hs; exact absurd hs (by grind)
+
+/-- soundness: exactly-one + weighted-sum rows make every flag the reification of `w = value` and put `w` in range -/
+theorem uenc_sound (y : Asg) (w : Rat) (k : Int) (flags : List Var) (hb : ∀ f ∈ flags, y f = 0 ∨ y f = 1)
+    (h1 : evalLin y (ones flags) = 1) (h2 : evalLin y (uencLin k flags) = w) :
+    uencOK y w k flags ∧ (k : Rat) ≤ w := by
+  induction flags generalizing k with
+  | nil => simp at h1
+  | cons f t ih =>
+    have hbt : ∀ g ∈ t, y g = 0 ∨ y g = 1 := fun g hg => hb g (by simp [hg])
+    simp only [ones_cons, evalLin_cons] at h1
+    simp only [uencLin, evalLin_cons] at h2
+    rcases hb f (by simp) with h0 | h0
+    · rw [h0] at h1 h2
+      have i := ih (k + 1) hbt (by grind) (by grind)
+      have hk : ((k + 1 : Int) : Rat) = (k : Rat) + 1 := by push_cast; rfl
+      rw [hk] at i
+      refine ⟨⟨?_, i.1⟩, by grind⟩
+      rw [h0]
+      constructor
+      · intro h; exact absurd h (by grind)
+      · intro h; have := i.2; rw [h] at this; exact absurd this (by grind)
+    · rw [h0] at h1 h2
+      have hz := all_zero_of_sum y t hbt (by grind)
+      have hl := uencLin_zero y (k + 1) t hz
+      rw [hl] at h2
+      have hw : w = (k : Rat) := by grind
+      refine ⟨⟨?_, ?_⟩, by grind⟩
+      · rw [h0]; constructor
+        · intro _; exact hw
+        · intro _; rfl
+      · apply uencOK_zero y w (k + 1) t hz; rw [hw]; push_cast; grind
+
+/-- completeness: if every flag is the reification of `w = value` and `w` is one of the encoded values, both rows hold -/
+theorem uenc_complete (y : Asg) (w : Rat) (k : Int) (flags : List Var) (hb : ∀ f ∈ flags, y f = 0 ∨ y f = 1)
+    (hok : uencOK y w k flags) (i : Nat) (hi : i < flags.length) (hw : w = ((k + (i : Int) : Int) : Rat)) :
+    evalLin y (ones flags) = 1 ∧ evalLin y (uencLin k flags) = w := by
+  induction flags generalizing k i with
+  | nil => simp at hi
+  | cons f t ih =>
+    have hbt : ∀ g ∈ t, y g = 0 ∨ y g = 1 := fun g hg => hb g (by simp [hg])
+    obtain ⟨hf, hrest⟩ := hok
+    simp only [ones_cons, uencLin, evalLin_cons]
+    cases i with
+    | zero =>
+      have hwk : w = (k : Rat) := by rw [hw]; simp
+      have hf1 : y f = 1 := hf.mpr hwk
+      -- all later flags are zero: their values are > k = w
+      have hz : ∀ g ∈ t, y g = 0 := by
+        have : ∀ (k' : Int) (l : List Var), (∀ g ∈ l, y g = 0 ∨ y g = 1) → uencOK y w k' l → w < (k' : Rat) →
+            ∀ g ∈ l, y g = 0 := by
+          intro k' l
+          induction l generalizing k' with
+          | nil => simp
+          | cons g l' ihl =>
+            intro hbl hokl hlt g' hg'
+            simp only [List.mem_cons] at hg'
+            obtain ⟨hg, hr⟩ := hokl
+            rcases hg' with hg' | hg'
+            · subst hg'
+              rcases hbl g' (by simp) with h | h
+              · exact h
+              · have := hg.mp h; rw [this] at hlt; exact absurd hlt (by grind)
+            · exact ihl (k' + 1) (fun a ha => hbl a (by simp [ha])) hr (by push_cast; grind) g' hg'
+        exact this (k + 1) t hbt hrest (by rw [hwk]; push_cast; grind)
+      have s0 := sum_bin_none y t hbt (by
+        rw [List.any_eq_false]; intro g hg; simp [hz g hg])
+      rw [hf1, s0, uencLin_zero y (k + 1) t hz, hwk]; grind
+    | succ j =>
+      have hne : ¬ w = (k : Rat) := by
+        rw [hw]; intro h
+        have : (k + ((j + 1 : Nat) : Int)) = k := by exact_mod_cast h
+        omega
+      have hf0 : y f = 0 := by
+        rcases hb f (by simp) with h | h
+        · exact h
+        · exact absurd (hf.mp h) hne
+      have := ih (k + 1) hbt hrest j (by simpa using hi) (by rw [hw]; congr 1; omega)
+      rw [hf0, this.1, this.2]; grind
+
+/-- `CreateUnaryEncoding`: with binary flags and `v` an integer of the encoded range, the two rows hold iff every flag
+is the reification of `v = its value` -/
+theorem C01_gadget_unary_encoding (v : Var) (lb : Int) (flags : List Var) (y : Asg)
+    (hb : ∀ f ∈ flags, y f = 0 ∨ y f = 1)
+    (hv : ∃ i : Nat, i < flags.length ∧ y v = ((lb + (i : Int) : Int) : Rat)) :
+    (∀ c ∈ (gUnaryEnc v lb flags).cons, c.sat y) ↔ uencOK y (y v) lb flags := by
+  simp only [gUnaryEnc, List.mem_cons, List.not_mem_nil, or_false, forall_eq_or_imp, forall_eq, Con.sat, Cmp.holds,
+    evalLin_append, evalLin_cons, evalLin_nil]
+  constructor
+  · intro ⟨h1, h2⟩
+    exact (uenc_sound y (y v) lb flags hb h1 (by grind)).1
+  · intro hok
+    obtain ⟨i, hi, hw⟩ := hv
+    have := uenc_complete y (y v) lb flags hb hok i hi hw
+    exact ⟨this.1, by rw [this.2]; grind⟩
+
+/-- the rows alone already force `v` into the encoded range and make it integral (no hypothesis on `v`) -/
+theorem C01_gadget_unary_encoding_sound (v : Var) (lb : Int) (flags : List Var) (y : Asg)
+    (hb : ∀ f ∈ flags, y f = 0 ∨ y f = 1) (hc : ∀ c ∈ (gUnaryEnc v lb flags).cons, c.sat y) :
+    uencOK y (y v) lb flags ∧ (lb : Rat) ≤ y v := by
+  simp only [gUnaryEnc, List.mem_cons, List.not_mem_nil, or_false, forall_eq_or_imp, forall_eq, Con.sat, Cmp.holds,
+    evalLin_append, evalLin_cons, evalLin_nil] at hc
+  exact uenc_sound y (y v) lb flags hb hc.1 (by grind)
+
+
+/-! ## product with a binary variable (mul.h), term level -/
+
+/-- `c·b·o = c·r` whenever `r = IfThen(b, o, zero)`, `b` is 0/1 and `zero` is fixed at 0: the linearised row has the
+same value as the quadratic one -/
+theorem C01_gadget_mul_binary_term (c : Rat) (b o zero r : Var) (lin : Lin) (y : Asg)
+    (hb : y b = 0 ∨ y b = 1) (hz : y zero = 0) (hr : y r = Fun.val y (.ifthen b o zero)) :
+    evalLin y (lin ++ [(c, r)]) = evalLin y lin + evalQuad y [(c, b, o)] := by
+  simp only [evalLin_append, evalLin_cons, evalLin_nil, evalQuad, hr, Fun.val]
+  rcases hb with h | h <;> simp [h, hz] <;> grind
+
+/-- the step's functional constraint is realizable for every point (fresh result variable within the
+preprocessed if-then bounds when `o` respects its bounds) -/
+theorem C01_gadget_mul_binary_term_realizable (b o zero : Var) (B : Bnds) (n : Nat) (x : Asg)
+    (hbn : b < n) (hon : o < n) (hzn : zero < n) (hb : x b = 0 ∨ x b = 1) (hz : x zero = 0) (hd : inDom B x o) :
+    (gMulBinTerm b o zero B n).realizable n x := by
+  refine ⟨fun v => if v = n then (if x b = 1 then x o else 0) else x v, ?_, ?_, ?_⟩
+  · intro v hv; simp [Nat.ne_of_lt hv]
+  · simp only [gMulBinTerm, auxOk, and_true, if_true]
+    refine ⟨?_, ?_, ?_⟩
+    · intro l hl
+      cases h1 : (B o).lb with
+      | none => simp [h1] at hl
+      | some l1 =>
+        simp [h1] at hl; subst hl
+        have := hd.1 l1 h1
+        split <;> split <;> grind
+    · intro u hu
+      cases h1 : (B o).ub with
+      | none => simp [h1] at hu
+      | some u1 =>
+        simp [h1] at hu; subst hu
+        have := hd.2.1 u1 h1
+        split <;> split <;> grind
+    · intro hi
+      split
+      · exact hd.2.2 hi
+      · exact isIntVal_zero
+  · have e1 : b ≠ n := Nat.ne_of_lt hbn
+    have e2 : o ≠ n := Nat.ne_of_lt hon
+    have e3 : zero ≠ n := Nat.ne_of_lt hzn
+    simp [gMulBinTerm, Con.sat, rel, req, Ctx.eff, Fun.val, e1, e2, e3, hz]
 
 /-!
 ## Stage 2 (NOT proved here beyond the single-nesting fragment above): composition
@@ -1767,8 +2550,8 @@ What is missing for the whole-model theorem:
 * the fragment proved above (`C01_compose_root_range_single_partial`, instance `C01_compose_example_abs`) covers one
   functional constraint nested once under a root linear range constraint; nesting depth > 1, shared subexpressions,
   several result variables in one body, logical roots and objectives are not covered;
-* gadgets not yet modelled: alldiff/unary encoding, complementarity, PL→SOS2, SOS2→ZZI, pow, general
-  products; modelled and correspondence-checked without theorem: min/max, count, numberof, implication with fixed result.
+* gadgets not yet modelled: alldiff rows over the unary flags, complementarity, PL→SOS2, SOS2→ZZI, pow, general
+  products (unary encoding and the binary-product term step are modelled and proved but not correspondence-checked per gadget); modelled and correspondence-checked without theorem: count with non-binary arguments, implication with fixed-true result.
 Until then whole-model equivalence is *validated per run* by checks/c01.py (projection-equivalence
 oracle on generated models), not proved.
 -/
